@@ -13,6 +13,9 @@ LEVEL_TEXT = ("Static analysis of /repo's current source (go/packages + go/ssa, 
 
 # id -> (technique, what is decided, design_ref)
 CLAIMED = {
+    "C10": ("sibling rule over all owners of SetReadDeadline (discovered by method set), must-pass-through, select-structure rules (pre-check and Done() case), value analysis of timeout-class errors, plus the Deadline typestate rules",
+            "every owner arms a level-triggered deadline.Deadline (or delegates to one it reads from) with its argument; no one-shot timer channel on any read path; non-blocking pre-check dominates every blocking wait, which has a Done() case; Done() branches return timeout-class errors and nothing else does; Deadline bookkeeping",
+            "DESIGN.md section 3 C10"),
     "C11": ("key-agreement of all connection-table operations, provenance of (address, payload, conn), dominance/edge rules for registration, call-graph single-dispatcher rule, taint of the reused receive buffer, plus the packet-buffer integrity rules of C06",
             "table keyed consistently by the remote address; datagram written to the conn returned for its own address; same read/batch index; registration only on not-found + accepting + filter-true + enqueue-success edges under connLock; one dispatcher goroutine; receive buffer not retained; Close unregisters its own key; no routing cache; buffer integrity",
             "DESIGN.md section 3 C11"),
